@@ -320,9 +320,9 @@ def determineInitial (explicitStart : Option Line) (passages : List (Line × PPa
     if passages.any (·.1 == "Start".toList) then pure "Start".toList
     else pure (match passages with | (k, _) :: _ => k | [] => [])
 
-/-- `parse(source)` up to the final dict -/
-def parseStory (O : PyOracle) (source : Line) : PM Parsed := do
-  let lines : Lines := (stripDirectiveComments (splitNl source)).toArray
+/-- `_parse_source` from the split lines on, up to the final dict -/
+def parseLines (O : PyOracle) (ls : List Line) : PM Parsed := do
+  let lines : Lines := (stripDirectiveComments ls).toArray
   -- three units of fuel per line (one per iteration, two handed down to nested block extractors) are always enough:
   -- `Proofs/C11e.lean`
   let s ← coreLoop O lines (3 * lines.size + 3) 0 {}
@@ -336,6 +336,9 @@ def parseStory (O : PyOracle) (source : Line) : PM Parsed := do
   | some ip => if hasRequiredParam ip then valErr "Initial passage has required parameter(s)"
   | none => pure ()
   pure { initial, passages, metadata := s.metadata, imports := s.imports }
+
+/-- `parse(source)` up to the final dict -/
+def parseStory (O : PyOracle) (source : Line) : PM Parsed := parseLines O (splitNl source)
 
 def Parsed.toJ (p : Parsed) : J :=
   .obj [("version", jstr "0.1.0"), ("initial_passage", .str p.initial),
